@@ -992,3 +992,53 @@ pub fn gen_script(r: &mut Rng, depth_left: u32) -> Sym {
     };
     Sym { pre, pre_swallow: r.chance(1, 2), repay_first: rf, rep, pre2 }
 }
+
+
+/// C16 probe: the borrower contract calls the vault's internal AfterTrade callback from inside its own flash loan
+/// (loan counter > 0). The call has to be rejected like any other external callback: sent as a plain message it
+/// aborts the whole loan; sent as a swallowed sub-message the loan goes on and the rejection shows as "swallowed".
+pub fn forged_callback_probe(acc: &mut Acc, r: &mut Rng) {
+    let f = r.fee_triple();
+    let liq = r.range128(1_000_000, 1_000_000_000_000);
+    let mut wd = seeded_world([f, f], [liq, liq]);
+    for v in 0..2 {
+        let bal = wd.vaults[v].asset.balance(&wd.app, &wd.vaults[v].addr);
+        let amount = r.range128(1, bal.max(2) / 2);
+        let usr = wd.users[2].clone();
+        let (vault, asset) = (wd.vaults[v].addr.to_string(), wd.vaults[v].asset.info());
+        for swallow in [false, true] {
+            let old_balance = *r.pick(&[0u128, bal, bal - amount]);
+            let loan_amount = *r.pick(&[0u128, amount, 1]);
+            let script = vec![
+                Step { act: Act::ForgeAfterTrade { vault: vault.clone(), old_balance: Uint128::new(old_balance), loan_amount: Uint128::new(loan_amount) }, swallow },
+                Step { act: Act::Repay { vault: vault.clone(), asset: asset.clone(), loan: Uint128::new(amount), mode: RepayMode::Exact }, swallow: false },
+            ];
+            let before = snap(&wd.app);
+            let res = wd.loan_direct(&usr, v, amount, script);
+            acc.count("check.A1.forged-callback-inside-a-loan");
+            acc.case(&[77, v as u64, swallow as u64, res.is_ok() as u64, (old_balance == 0) as u64, (loan_amount == 0) as u64]);
+            let d = json!({"vault": v, "loan": amount.to_string(), "forged_old_balance": old_balance.to_string(), "forged_loan_amount": loan_amount.to_string(), "sent_as": if swallow { "sub-message whose failure is swallowed" } else { "plain message" }});
+            match (&res, swallow) {
+                (Ok(_), false) => acc.violation("C16", "A1/unauthorised-caller-accepted/vault.Callback.AfterTrade/borrower-inside-its-own-loan", d),
+                (Ok(resp), true) => {
+                    if attr(resp, "swallowed_id").is_none() {
+                        acc.violation("C16", "A1/unauthorised-caller-accepted/vault.Callback.AfterTrade/borrower-inside-its-own-loan", d);
+                    } else {
+                        acc.count("rejected-for-unauthorised.vault.Callback.AfterTrade.inside-a-loan");
+                    }
+                }
+                (Err(_), false) => {
+                    acc.count("rejected-for-unauthorised.vault.Callback.AfterTrade.inside-a-loan");
+                    if !same_state(&before, &snap(&wd.app)) {
+                        acc.violation("C16", "U1/rejected-call-changed-state", d);
+                    }
+                }
+                (Err(e), true) => {
+                    // the honest remainder of the loan is expected to go through
+                    acc.add(&format!("forged-callback-probe.loan-failed: {}", e.lines().last().unwrap_or("").chars().map(|c| if c.is_ascii_digit() { '#' } else { c }).take(80).collect::<String>()), 1);
+                }
+            }
+            restore(&mut wd.app, &before);
+        }
+    }
+}
